@@ -35,27 +35,20 @@
 EXTENDS Square, Integers, Json, TLC
 
 CONSTANTS
-  GenWidths,    \* widths for which EVERY layout over NsData is generated
-  NsData,       \* namespaces a generated layout may use (subset of 1..8)
-  AllowNsPad,   \* generate namespace-padding shares
-  ExtraLayouts, \* further layouts, given explicitly: set of <<w, nsSeq, flagSeq>>
-  Kinds,        \* subset of {"sample","row","rnd","nd","range"}
+  Plan,         \* record: entry name |-> [k |-> request kind, L |-> set of layouts,
+                \*   F |-> max. number of forgery steps,
+                \*   T |-> atom names allowed from the second forgery step on ({} = all),
+                \*   wide |-> BOOLEAN: all requests also for width 4 (FALSE: a representative subset)];
+                \* kinds: "sample", "row", "rnd", "nd", "range" (see MCShwap.tla for the plans)
   ReqNs,        \* namespaces asked for in rnd / nd requests
-  MaxForge,     \* number of forgery steps after the source was chosen
-  FixRangeLen,  \* TRUE: range verifier with the per-row length check (commit "fix: range verification ...")
-  Wide          \* TRUE: full atom/source sets also for width 4 (thorough tier)
+  FixRangeLen   \* TRUE: range verifier with the per-row length check (commit "fix: range verification ...")
 
-VARIABLE st     \* [sq, req, resp, hon, n, acc, steps]
-
-Layouts ==
-  UNION { GenLayouts(w, NsData, AllowNsPad) : w \in GenWidths }
-  \cup { LayoutOf(x[1], x[2], x[3]) : x \in ExtraLayouts }
+VARIABLE st     \* [pe, sq, req, resp, hon, n, acc, steps]   (pe: name of the plan entry)
 
 SQ(l, q) == IF q = 1 THEN l ELSE SecondSquare(l)
 Cell(l, ref) == Eds(SQ(l, ref[1]), ref[2], ref[3])
 Cells(l, refs) == Strict([k \in 1..Len(refs) |-> Cell(l, refs[k])])
 Seq0(n) == Strict([k \in 1..n |-> k - 1])                  \* <<0, .., n-1>>
-Small(l) == l.w <= 2 \/ Wide
 
 (* ------------------------------ proofs ---------------------------------- *)
 (* k: "pf" a proof, "nil" no proof field at all, "empty" a proof message    *)
@@ -265,22 +258,21 @@ SingleNs(l, from, to) == \A k \in (from + 1)..to : l.c[k][1] = l.c[from + 1][1]
 (***************************************************************************)
 (* Requests                                                                *)
 (***************************************************************************)
-PickCoords(l) == IF Small(l) THEN 0..(2 * l.w - 1) ELSE {0, l.w - 1, l.w, 2 * l.w - 1}
-PickOds(l)    == IF Small(l) THEN 0..(l.w - 1) ELSE {0, 1, l.w - 1}
-Requests(l) ==
-  (IF "sample" \in Kinds
-     THEN {[k |-> "sample", r |-> r, c |-> c] : r \in PickCoords(l), c \in PickCoords(l)} ELSE {})
-  \cup (IF "row" \in Kinds THEN {[k |-> "row", i |-> i] : i \in 0..(2 * l.w - 1)} ELSE {})
-  \cup (IF "rnd" \in Kinds
-          THEN {[k |-> "rnd", i |-> i, ns |-> ns] : i \in 0..l.w, ns \in ReqNs} ELSE {})
-  \cup (IF "nd" \in Kinds THEN {[k |-> "nd", ns |-> ns] : ns \in ReqNs} ELSE {})
-  \cup (IF "range" \in Kinds
-          THEN {[k |-> "range", from |-> f, to |-> t, nsc |-> nsc] :
-                  f \in 0..(l.w * l.w - 1), t \in 1..(l.w * l.w), nsc \in BOOLEAN} ELSE {})
-RequestOK(l, req) ==
-  req.k = "range" =>
-     /\ req.from < req.to
-     /\ Small(l) \/ (req.from % l.w \in PickOds(l) /\ (req.to - 1) % l.w \in PickOds(l))
+(* sm: the full request set (always for widths 1, 2); otherwise a representative subset *)
+PickCoords(l, sm) == IF sm THEN 0..(2 * l.w - 1) ELSE {0, l.w - 1, l.w, 2 * l.w - 1}
+Requests(l, kind, sm) ==
+  CASE kind = "sample" -> {[k |-> "sample", r |-> r, c |-> c] : r \in PickCoords(l, sm), c \in PickCoords(l, sm)}
+    [] kind = "row"    -> {[k |-> "row", i |-> i] : i \in 0..(2 * l.w - 1)}
+    [] kind = "rnd"    -> {[k |-> "rnd", i |-> i, ns |-> ns] : i \in 0..l.w, ns \in ReqNs}
+    [] kind = "nd"     -> {[k |-> "nd", ns |-> ns] : ns \in ReqNs}
+    [] kind = "range"  ->
+         IF sm THEN {[k |-> "range", from |-> f, to |-> t, nsc |-> nsc] :
+                        f \in 0..(l.w * l.w - 1), t \in 1..(l.w * l.w), nsc \in BOOLEAN}
+         ELSE (* one, two, three and four rows; whole and partial first / last rows *)
+              {[k |-> "range", from |-> f, to |-> t, nsc |-> FALSE] :
+                        f \in {0, 1, l.w + 1},
+                        t \in {2, l.w, 2 * l.w - 1, 2 * l.w, 3 * l.w - 1, 3 * l.w, l.w * l.w}}
+RequestOK(l, req) == req.k = "range" => req.from < req.to
 
 (***************************************************************************)
 (* Sources: honest responses of the request itself (hon = TRUE) and of     *)
@@ -313,8 +305,8 @@ RndPieces(l, q, i) ==
   {[lab |-> <<"sub", q, i, a, b>>, resp |-> SubRnd(q, i, a, b)] : a \in 0..(l.w - 1), b \in 1..l.w}
   \cup {[lab |-> <<"abs", q, i, p>>, resp |-> AbsRnd(q, i, p)] : p \in 0..(2 * l.w - 1)}
 PieceOK(x) == x.lab[1] = "abs" \/ x.lab[4] < x.lab[5]
-RndSources(l, i, ns) ==
-  LET rows == {j \in {i, i + 1, i - 1} : j \in 0..(l.w - 1)}
+RndSources(l, i, ns, sm) ==
+  LET rows == IF sm THEN {j \in {i, i + 1, i - 1} : j \in 0..(l.w - 1)} ELSE {i} \cap 0..(l.w - 1)
       hon  == IF HasHonestRnd(l, i, ns) THEN {HonestRnd(l, 1, i, ns)} ELSE {}
   IN UNION {{[hon |-> (j = i /\ x.resp \in hon), lab |-> x.lab, resp |-> x.resp] :
                  x \in {y \in RndPieces(l, 1, j) : PieceOK(y)}} : j \in rows}
@@ -333,17 +325,20 @@ RangeNear(l, from, to) ==
   IN {x \in {<<from, to>>, <<from + 1, to>>, <<from - 1, to>>, <<from, to + 1>>, <<from, to - 1>>,
              <<from + 1, to + 1>>, <<from - 1, to - 1>>, <<from + l.w, to + l.w>>, <<from - l.w, to - l.w>>} :
         x[1] >= 0 /\ x[1] < x[2] /\ x[2] <= m}
-RangeSources(l, from, to) ==
-  {[hon |-> (x = <<from, to>> /\ SingleNs(l, from, to)), lab |-> <<"src", 1, x[1], x[2]>>,
+(* honest = what the real producer answers (it refuses ranges over several namespaces);     *)
+(* VerifyNamespace (nsc) additionally demands namespace completeness, which an honest answer *)
+(* to a sub-range of a namespace cannot have: acceptance is demanded for VerifyInclusion only *)
+RangeSources(l, from, to, nsc) ==
+  {[hon |-> (x = <<from, to>> /\ SingleNs(l, from, to) /\ ~nsc), lab |-> <<"src", 1, x[1], x[2]>>,
     resp |-> HonestRange(l, 1, x[1], x[2])] : x \in RangeNear(l, from, to)}
   \cup {[hon |-> FALSE, lab |-> <<"src", 2, from, to>>, resp |-> HonestRange(l, 2, from, to)]}
 
-Sources(l, req) ==
+Sources(l, req, sm) ==
   CASE req.k = "sample" -> SampleSources(l, req.r, req.c)
     [] req.k = "row"    -> RowSources(l, req.i)
-    [] req.k = "rnd"    -> RndSources(l, req.i, req.ns)
+    [] req.k = "rnd"    -> RndSources(l, req.i, req.ns, sm)
     [] req.k = "nd"     -> NdSources(l, req.ns)
-    [] req.k = "range"  -> RangeSources(l, req.from, req.to)
+    [] req.k = "range"  -> RangeSources(l, req.from, req.to, req.nsc)
 
 (***************************************************************************)
 (* Forgery atoms: set of [lab, resp] obtained from resp by ONE rewrite.    *)
@@ -493,13 +488,16 @@ Atoms(l, req, resp) ==
 (* Behaviours                                                              *)
 (***************************************************************************)
 Init ==
-  \E l \in Layouts : \E req \in {r \in Requests(l) : RequestOK(l, r)} : \E src \in Sources(l, req) :
-    st = [sq |-> l, req |-> req, resp |-> src.resp, hon |-> src.hon, n |-> 0,
+  \E pe \in DOMAIN Plan : \E l \in Plan[pe].L :
+  LET sm == l.w <= 2 \/ Plan[pe].wide IN
+  \E req \in {r \in Requests(l, Plan[pe].k, sm) : RequestOK(l, r)} : \E src \in Sources(l, req, sm) :
+    st = [pe |-> pe, sq |-> l, req |-> req, resp |-> src.resp, hon |-> src.hon, n |-> 0,
           acc |-> Accept(l, req, src.resp), steps |-> <<src.lab>>]
 
 Forge ==
-  /\ st.n < MaxForge
+  /\ st.n < Plan[st.pe].F
   /\ \E a \in Atoms(st.sq, st.req, st.resp) :
+       /\ st.n = 0 \/ Plan[st.pe].T = {} \/ a.lab[1] \in Plan[st.pe].T
        /\ a.resp # st.resp
        /\ st' = [st EXCEPT !.resp = a.resp, !.hon = FALSE, !.n = st.n + 1,
                            !.acc = Accept(st.sq, st.req, a.resp), !.steps = Append(st.steps, a.lab)]
@@ -507,7 +505,7 @@ Forge ==
 Next == Forge
 Spec == Init /\ [][Next]_st
 
-View == [sq |-> st.sq, req |-> st.req, resp |-> st.resp, hon |-> st.hon, n |-> st.n]
+View == [pe |-> st.pe, sq |-> st.sq, req |-> st.req, resp |-> st.resp, hon |-> st.hon, n |-> st.n]
 
 (***************************************************************************)
 (* Properties                                                              *)
@@ -517,7 +515,7 @@ Sound    == st.acc => DataOf(st.sq, st.req, st.resp) = Committed(st.sq, st.req)
 (* the honest answer verifies *)
 Complete == st.hon => st.acc
 (* the state variable acc really is the verdict (guards against a stale EXCEPT) *)
-TypeOK   == st.acc \in BOOLEAN /\ st.n \in 0..MaxForge
+TypeOK   == st.acc \in BOOLEAN /\ st.n \in 0..Plan[st.pe].F /\ ValidLayout(st.sq) /\ st.req.k = Plan[st.pe].k
 
 NsSeq(l)  == Strict([k \in 1..Len(l.c) |-> l.c[k][1]])
 PidSeq(l) == Strict([k \in 1..Len(l.c) |-> l.c[k][2]])
